@@ -858,7 +858,11 @@ func mdataCloseProbe(rec *trace.Recorder, dir string) map[string]any {
 			var out []string
 			for _, ln := range strings.Split(b, "\n") {
 				if strings.Contains(ln, "lindb/kv.") || strings.HasPrefix(ln, "sync.") {
-					out = append(out, strings.TrimSpace(ln))
+					ln = strings.TrimSpace(ln)
+					if i := strings.LastIndex(ln, "("); i > 0 && strings.HasSuffix(ln, ")") {
+						ln = ln[:i] // without the argument words (addresses)
+					}
+					out = append(out, ln)
 				}
 			}
 			return out
